@@ -199,10 +199,14 @@ func (e *Enc) resolveType(pkg *ssa.Package, s string) types.Type {
 		return types.Typ[types.Bool]
 	case "string":
 		return types.Typ[types.String]
-	case "byte", "uint8":
+	case "uint8":
 		return types.Typ[types.Uint8]
-	case "rune", "int32":
+	case "byte":
+		return types.Universe.Lookup("byte").Type()
+	case "int32":
 		return types.Typ[types.Int32]
+	case "rune":
+		return types.Universe.Lookup("rune").Type()
 	case "uint":
 		return types.Typ[types.Uint]
 	case "uint32":
